@@ -29,10 +29,11 @@ from easynetwork.servers.handlers import AsyncDatagramRequestHandler, AsyncStrea
 
 from models import lifecycle as L
 from vsim.backend import SimAsyncIOBackend, sim_sockets
-from vsim.harness import Peer, swarm_selector
-from vsim.loop import run_async
+from vsim.harness import Peer, swarm_selector, sync_engine
+from vsim.loop import SimEventLoop, run_async
 from vsim.runner import Harness
 from vsim.sock import SimNet, SimSocket
+from vsim.threads import Scheduler, ThreadAbort
 from vsim.world import Deadlock, HarnessError, Violation, World
 
 PROPERTY = "C18"
@@ -491,7 +492,435 @@ def _h(world: World, kind: str) -> None:
     world.probe(f"model-peak-configs>={min(run.rec.model.peak, 64) // 8 * 8}")
 
 
+# ================================================================================================ THREADED half
+# StandaloneTCPNetworkServer / StandaloneUDPNetworkServer (servers/_base.py BaseStandaloneNetworkServerImpl) and
+# NetworkServerThread, driven by 1-3 simulated threads under the baton scheduler (vsim.threads).  Same reference machine
+# (atomic=(): where a call takes effect between invoke and return is unknown), same extra clauses.
+THREAD_OPS = ("serve_bg", "shutdown", "client", "is_serving", "close", "serve", "serve_nst", "client", "shutdown_t", "close")
+SHUTDOWN_TIMEOUTS = (0.0, 1 / 64.0, 8 / 64.0)
+
+
+class _RecordedServer:
+    """The standalone server seen by the callers (and by NetworkServerThread): every lifecycle call is recorded as an
+    invoke/return pair of the history.  Not a subclass on purpose: it only forwards."""
+
+    def __init__(self, run: "ThreadRun", srv: Any, actor_of: Callable[[], str]):
+        self._run = run
+        self._srv = srv
+        self._actor_of = actor_of
+
+    def serve_forever(self, *, is_up_event: Any = None, **kw: Any) -> None:
+        run, rec, actor = self._run, self._run.rec, self._actor_of()
+        opid = rec.invoke(actor, L.SERVE)
+        run.current[actor] = f"serve_forever#{opid}"
+
+        class Up:
+            def set(_self) -> None:
+                rec.up(opid)
+                if is_up_event is not None:
+                    is_up_event.set()
+
+        try:
+            self._srv.serve_forever(is_up_event=Up(), **kw)
+        except ThreadAbort:
+            raise
+        except Exception as exc:
+            name = type(exc).__name__
+            run.current.pop(actor, None)
+            rec.ret(actor, opid, SERVE_ERRORS.get(name, name), f"{name}: {exc}"[:300])
+            raise
+        run.current.pop(actor, None)
+        rec.ret(actor, opid, L.NONE)
+
+    def shutdown(self, timeout: float | None = None) -> None:
+        run, rec, actor = self._run, self._run.rec, self._actor_of()
+        opid = rec.invoke(actor, L.SHUTDOWN)
+        run.current[actor] = f"shutdown#{opid}"
+        t0 = run.world.now
+        try:
+            self._srv.shutdown(timeout) if timeout is not None else self._srv.shutdown()
+        except ThreadAbort:
+            raise
+        except Exception as exc:
+            name = type(exc).__name__
+            run.current.pop(actor, None)
+            rec.ret(actor, opid, name, f"{name}: {exc}"[:300])
+            raise
+        run.current.pop(actor, None)
+        # shutdown(timeout) returns None whether or not it gave up waiting: it certainly did not give up when less virtual time
+        # than the timeout has passed
+        gave_up = timeout is not None and run.world.now - t0 >= timeout
+        rec.ret(actor, opid, L.TIMED_OUT if gave_up else L.NONE)
+
+    def server_close(self) -> None:
+        run, rec, actor = self._run, self._run.rec, self._actor_of()
+        opid = rec.invoke(actor, L.CLOSE)
+        run.current[actor] = f"server_close#{opid}"
+        try:
+            self._srv.server_close()
+        except ThreadAbort:
+            raise
+        except Exception as exc:
+            name = type(exc).__name__
+            run.current.pop(actor, None)
+            rec.ret(actor, opid, {"BusyResourceError": L.BUSY_ERROR}.get(name, name), f"{name}: {exc}"[:300])
+            raise
+        run.current.pop(actor, None)
+        rec.ret(actor, opid, L.NONE)
+        run.after_close(actor)
+
+    def is_serving(self) -> bool:
+        run, rec, actor = self._run, self._run.rec, self._actor_of()
+        opid = rec.invoke(actor, L.IS_SERVING)
+        run.current[actor] = f"is_serving#{opid}"
+        value = bool(self._srv.is_serving())
+        run.current.pop(actor, None)
+        rec.ret(actor, opid, str(value))
+        return value
+
+
+class ThreadRun:
+    def __init__(self, world: World, kind: str):
+        self.world = world
+        self.kind = kind
+        self.harness = f"thr-{kind}"
+        self.net = SimNet(world)
+        self.backend = SimAsyncIOBackend(self.net, hosts={"sim.host": [(_socket.AF_INET, "10.0.0.1")]})
+        self.rec = LifecycleRecorder(world, self.harness, atomic=())
+        self.switch_den = world.pick("switch_den", [6, 3, 2])
+        self.fine = bool(world.choose("fine", 2))
+        self.max_preemptions = world.choose("max_preemptions", 4) if self.fine else 0
+        self.preempt_den = world.pick("preempt_den", [30, 10]) if self.fine else 0
+        self.host: Any = world.pick("host", ["127.0.0.1", "sim.host", ["127.0.0.1", "sim.host"]])
+        self.perturb = world.choose("perturb", 3)
+        if self.perturb:
+            self.backend.getaddrinfo_delay = (0.0, 1 / 64.0, 3 / 64.0)[world.choose("dns_delay", 3)]
+            self.init_delay = (0.0, 0.0, 1 / 64.0, 4 / 64.0)[world.choose("init_delay", 4)]
+            self.handle_delay = (0.0, 0.0, 2 / 64.0, 10 / 64.0)[world.choose("handle_delay", 4)]
+        else:
+            self.init_delay = self.handle_delay = 0.0
+        if self.backend.getaddrinfo_delay or self.init_delay or self.handle_delay:
+            world.fault("delay")
+        self.ntasks = 1 + world.choose("ntasks", 3)
+        nops = 1 + world.choose("nops", 7)
+        self.programs: list[list[tuple]] = [[] for _ in range(self.ntasks)]
+        for _ in range(nops):
+            t = world.choose("task", self.ntasks)
+            op = THREAD_OPS[world.choose("op", len(THREAD_OPS))]
+            arg = SHUTDOWN_TIMEOUTS[world.choose("shutdown_timeout", len(SHUTDOWN_TIMEOUTS))] if op == "shutdown_t" else None
+            self.programs[t].append((op, arg, self._draw_yield()))
+        self.current: dict[str, str] = {}
+        self.parked = [False] * self.ntasks
+        self.done = [False] * self.ntasks
+        self.bg: list[Any] = []  # every thread started for a serve_forever
+        self.nclients = 0
+        self.actor_by_ident: dict[int, str] = {}
+        world.notes.update(harness=self.harness, host=self.host, programs=[[op for op, _a, _y in p] for p in self.programs], switch_den=self.switch_den, fine=self.fine, max_preemptions=self.max_preemptions, preempt_den=self.preempt_den, init_delay=self.init_delay, handle_delay=self.handle_delay, dns_delay=self.backend.getaddrinfo_delay)
+
+    def _draw_yield(self) -> int:
+        if not self.perturb:
+            return 0
+        return (0, 0, 1, 2, 8)[self.world.choose("yield", 5)]  # 1/64 s units of virtual sleep before the call
+
+    # -------------------------------------------------- plumbing
+    def actor(self) -> str:
+        import threading
+
+        return self.actor_by_ident.get(threading.get_ident(), "main")
+
+    def register(self, name: str) -> None:
+        import threading
+
+        self.actor_by_ident[threading.get_ident()] = name
+
+    def make_server(self) -> Any:
+        from easynetwork.servers.standalone_tcp import StandaloneTCPNetworkServer
+        from easynetwork.servers.standalone_udp import StandaloneUDPNetworkServer
+
+        run = self
+        world = self.world
+
+        async def _handle_common(client: Any):
+            req = yield
+            run.rec.handler("request")
+            if run.handle_delay:
+                await asyncio.sleep(run.handle_delay)
+                run.rec.handler("reply")
+            await client.send_packet(req.upper())
+
+        opts = {"loop_factory": lambda: SimEventLoop(world)}
+        if self.kind == "tcp":
+
+            class TCPHandler(AsyncStreamRequestHandler):
+                async def service_init(self, exit_stack: Any, server: Any) -> None:
+                    if run.init_delay:
+                        await asyncio.sleep(run.init_delay)
+
+                def handle(self, client: Any):
+                    return _handle_common(client)
+
+            return StandaloneTCPNetworkServer(self.host, PORT, StreamProtocol(StringLineSerializer()), TCPHandler(), backend=self.backend, runner_options=opts)
+
+        class UDPHandler(AsyncDatagramRequestHandler):
+            async def service_init(self, exit_stack: Any, server: Any) -> None:
+                if run.init_delay:
+                    await asyncio.sleep(run.init_delay)
+
+            def handle(self, client: Any):
+                return _handle_common(client)
+
+        return StandaloneUDPNetworkServer(self.host, PORT, DatagramProtocol(StringLineSerializer()), UDPHandler(), backend=self.backend, runner_options=opts)
+
+    def server_sockets(self) -> list[SimSocket]:
+        return [s for s in self.world.sockets if not s.label.startswith("cli")]
+
+    def open_listener(self) -> SimSocket | None:
+        for s in self.server_sockets():
+            if s.sim_closed or s.sockname is None:
+                continue
+            if self.kind == "tcp" and not s.listening:
+                continue
+            return s
+        return None
+
+    def after_close(self, actor: str) -> None:
+        """listeners are closed after server_close: immediately when nothing can still be winding down (otherwise the
+        tear-down of the running serve_forever closes them; the end-of-run check covers that)"""
+        if not self.rec.model.certainly(L.STOPPED, L.CLOSED):
+            return
+        still = sorted(s.label for s in self.server_sockets() if not s.sim_closed)
+        if still:
+            self.world.fail(Violation("listeners-closed-after-server_close", f"server_close() returned, no serve_forever can be running any more, but sockets {still} created by the server are still open; history: {self.rec.model.history[-30:]}", key=f"C18/{self.harness}/listeners-open-after-close"))
+
+    # -------------------------------------------------- client
+    def do_client(self) -> str:
+        actor = self.actor()
+        self.nclients += 1
+        n = self.nclients
+        opid = self.rec.invoke(actor, L.CLIENT)
+        self.current[actor] = f"client#{opid}"
+        request = f"req{n}-{actor}"
+        expected = request.upper()
+        got: Any = None
+        lst = self.open_listener()
+        if lst is not None:
+            client: Any = None
+            try:
+                if self.kind == "tcp":
+                    from easynetwork.clients.tcp import TCPNetworkClient
+
+                    try:
+                        sock = self.net.connect_to_listener(lst, label=f"cli{n}")
+                    except ConnectionRefusedError:
+                        sock = None
+                    if sock is not None:
+                        client = TCPNetworkClient(sock, StreamProtocol(StringLineSerializer()))
+                else:
+                    from easynetwork.clients.udp import UDPNetworkClient
+
+                    sock = SimSocket(self.net, lst.family, _socket.SOCK_DGRAM, 0, f"cli{n}")
+                    self.net.bind(sock, (lst.getsockname()[0], 0))
+                    sock.connect(lst.getsockname())
+                    client = UDPNetworkClient(sock, DatagramProtocol(StringLineSerializer()))
+                if client is not None:
+                    try:
+                        client.send_packet(request)
+                        got = client.recv_packet(timeout=CLIENT_WAIT)
+                    except (TimeoutError, OSError):
+                        got = None
+            finally:
+                if client is not None:
+                    client.close()
+        self.current.pop(actor, None)
+        if got is not None and got != expected:
+            self.world.fail(Violation("client-gets-the-right-answer", f"client {n} sent {request!r} and received {got!r}", key=f"C18/{self.harness}/wrong-answer"))
+        outcome = L.SERVED if got == expected else L.FAILED
+        self.rec.ret(actor, opid, outcome)
+        return outcome
+
+    # -------------------------------------------------- caller threads
+    def spawn_serve(self, name: str, nst: bool) -> Any:
+        import threading
+
+        from easynetwork.servers.threads_helper import NetworkServerThread
+
+        run = self
+        if nst:
+
+            class Recorded(NetworkServerThread):
+                def run(self) -> None:
+                    run.register(name)
+                    try:
+                        super().run()
+                    except ThreadAbort:
+                        raise
+                    except Exception:
+                        pass  # already recorded as the outcome of serve_forever
+
+            t: Any = Recorded(self.srv, name=name)
+            self.bg.append(t)
+            self.current[self.actor()] = "NetworkServerThread.start"
+            t.start()  # returns once the server is up or serve_forever has ended
+            self.current.pop(self.actor(), None)
+            return t
+
+        def target() -> None:
+            run.register(name)
+            try:
+                run.srv.serve_forever()
+            except ThreadAbort:
+                raise
+            except Exception:
+                pass
+
+        t = threading.Thread(target=target, name=name)
+        self.bg.append(t)
+        t.start()
+        return t
+
+    def caller(self, idx: int) -> None:
+        import time
+
+        actor = f"t{idx}"
+        self.register(actor)
+        try:
+            for op, arg, ysp in self.programs[idx]:
+                if ysp:
+                    self.world.fault("delay")
+                    time.sleep(ysp / 64.0)
+                if self.world.fatal is not None:
+                    return
+                try:
+                    if op == "serve":
+                        self.parked[idx] = True
+                        try:
+                            self.srv.serve_forever()
+                        finally:
+                            self.parked[idx] = False
+                    elif op == "serve_bg":
+                        self.spawn_serve(f"{actor}.bg{len(self.bg)}", nst=False)
+                    elif op == "serve_nst":
+                        self.spawn_serve(f"{actor}.nst{len(self.bg)}", nst=True)
+                    elif op == "shutdown":
+                        self.srv.shutdown()
+                        self.srv.is_serving()
+                    elif op == "shutdown_t":
+                        self.srv.shutdown(arg)
+                    elif op == "close":
+                        self.srv.server_close()
+                    elif op == "is_serving":
+                        self.srv.is_serving()
+                    elif op == "client":
+                        self.do_client()
+                    else:  # pragma: no cover
+                        raise HarnessError(op)
+                except ThreadAbort:
+                    raise
+                except Exception:
+                    pass  # recorded as the call's outcome; the model decides whether it was allowed
+        finally:
+            self.done[idx] = True
+
+    # -------------------------------------------------- main thread = epilogue actor
+    def no_progress(self, what: str) -> None:
+        pend = ", ".join(f"{a}:{c}" for a, c in sorted(self.current.items()))
+        self.world.fail(
+            Violation(
+                "no-call-hangs",
+                f"{what} did not finish within {CALL_BOUND} virtual seconds although no further call was pending; calls in progress: [{pend}]; model states {self.rec.model.possible_states()}; history: {self.rec.model.history[-30:]}",
+                key=f"C18/{self.harness}/hang/{what.split('#')[0]}",
+            )
+        )
+
+    def wait_for(self, what: str, pred: Callable[[], bool]) -> None:
+        import time
+
+        deadline = self.world.now + CALL_BOUND
+        while not pred():
+            if self.world.fatal is not None:
+                raise self.world.fatal
+            if self.world.now > deadline:
+                self.no_progress(what)
+            time.sleep(1 / 64.0)
+
+    def main(self) -> None:
+        import threading
+
+        self.register("epi")
+        raw = self.make_server()
+        self.srv = _RecordedServer(self, raw, self.actor)
+        callers = [threading.Thread(target=self.caller, args=(i,), name=f"c18-t{i}") for i in range(self.ntasks)]
+        for t in callers:
+            t.start()
+        quiet = lambda: all(self.done[i] or self.parked[i] for i in range(self.ntasks))  # noqa: E731
+        for _round in range(16):
+            self.wait_for("caller-thread", quiet)
+            if all(self.done):
+                break
+            self.srv.shutdown()
+        else:
+            raise HarnessError("caller threads still parked after 16 shutdowns")
+        self.srv.shutdown()
+        self.srv.is_serving()
+        for t in list(self.bg):
+            self.wait_for("serve_forever#bg", lambda t=t: not t.is_alive())
+        if not self.rec.model.close_invoked:
+            # a stopped-not-closed server accepts and answers a client after the next serve_forever
+            t = self.spawn_serve("epi.bg", nst=False)
+            self.wait_for("serve_forever#up", lambda: self.rec.model.certainly(L.SERVING) or not t.is_alive())
+            self.do_client()
+            self.srv.shutdown()
+            self.srv.is_serving()
+            self.wait_for("serve_forever#epi", lambda: not t.is_alive())
+        self.srv.server_close()
+        try:
+            self.srv.serve_forever()
+        except Exception:
+            pass
+        self.srv.is_serving()
+        leaked = sorted(s.label for s in self.server_sockets() if not s.sim_closed)
+        if leaked:
+            self.world.fail(Violation("listeners-closed-after-server_close", f"sockets created by the server are still open after server_close() and after every serve_forever has returned: {leaked}; history: {self.rec.model.history[-30:]}", key=f"C18/{self.harness}/socket-leak-at-end"))
+        for t in callers + self.bg:
+            threading.Thread.join(t, CALL_BOUND)
+            if t.is_alive():
+                self.no_progress("thread-join")
+
+
+def _h_threads(world: World, kind: str) -> None:
+    import threading
+
+    run = ThreadRun(world, kind)
+    sched = Scheduler(world, switch_den=run.switch_den, preempt_files=("servers/_base.py", "servers/threads_helper.py", "_asyncio/threads.py") if run.max_preemptions else (), max_preemptions=run.max_preemptions)
+    sched.preempt_den = run.preempt_den
+    world.sched = sched  # type: ignore[attr-defined]
+    saved_hook = threading.excepthook
+    threading.excepthook = lambda args: None  # type: ignore[assignment]
+    try:
+        with sim_sockets(run.net), sync_engine(world), sched:
+            run.main()
+    except Deadlock as exc:
+        if isinstance(world.fatal, Violation):
+            raise world.fatal from None
+        pend = ", ".join(f"{a}:{c}" for a, c in sorted(run.current.items()))
+        call = sorted(run.current.values())[0].split("#")[0] if run.current else "none"
+        raise Violation("no-call-hangs", f"deadlock: {exc}; calls in progress: [{pend}]; model states {run.rec.model.possible_states()}; history: {run.rec.model.history[-30:]}", key=f"C18/{run.harness}/hang/{call}") from None
+    except BaseException:
+        if isinstance(world.fatal, Violation):
+            raise world.fatal from None
+        raise
+    finally:
+        threading.excepthook = saved_hook
+        world.sched = None  # type: ignore[attr-defined]
+        for s in world.sockets:
+            if not s.sim_closed:
+                s.close()
+    world.probe(f"model-peak-configs>={min(run.rec.model.peak, 64) // 8 * 8}")
+
+
 HARNESSES = [
-    Harness("aio-tcp", lambda w: _h(w, "tcp")),
-    Harness("aio-udp", lambda w: _h(w, "udp")),
+    Harness("aio-tcp", lambda w: _h(w, "tcp"), weight=4),
+    Harness("aio-udp", lambda w: _h(w, "udp"), weight=4),
+    Harness("thr-tcp", lambda w: _h_threads(w, "tcp"), weight=1, wall_limit=60.0),
+    Harness("thr-udp", lambda w: _h_threads(w, "udp"), weight=1, wall_limit=60.0),
 ]
